@@ -323,7 +323,7 @@ func (g *Gen) wantClause(c *Clause) bool {
 
 // useAxiom instantiates a trusted axiom or a proved lemma: "use name(args)".
 func (g *Gen) useAxiom(env *Env, u *CE) {
-	if u.Op == "forall" && len(u.Args) == 1 && u.Args[0].Op == "call" && u.Args[0].Args[0].Op == "ident" && g.Specs.Axioms[u.Args[0].Args[0].Name] != nil {
+	if u.Op == "forall" && len(u.Args) == 1 && u.Args[0].Op == "call" && u.Args[0].Args[0].Op == "ident" && (g.Specs.Axioms[u.Args[0].Args[0].Name] != nil || g.Specs.Lemmas[u.Args[0].Args[0].Name] != nil) {
 		// "use forall i T :: axiom(args(i))": the axiom at every i, instantiated lazily like any
 		// assumed universal fact
 		n := *env
@@ -704,6 +704,12 @@ func (f *frame) backEdge(from, to *ssa.BasicBlock, pc string, st *State) {
 	if li.spec != nil {
 		for k, gs := range li.spec.AtEnd {
 			pc = f.ghostStmt(gs, f.invEnv(st, pc, false, li), st, pc, fmt.Sprintf("%s#loop%d.atend.%s.%d", key, li.ord, ghostLabel(gs, k), n), from.Instrs[len(from.Instrs)-1].Pos())
+		}
+		// axiom / lemma instances named in the loop block, at the values after the body
+		for _, u := range li.spec.Uses {
+			if isAxiomUse(g, u) {
+				g.useAxiom(f.invEnv(st, pc, true, li), u)
+			}
 		}
 		env := f.invEnv(st, pc, false, li)
 		for k, c := range li.spec.Invs {
